@@ -20,9 +20,6 @@ Section Aabb.
   Definition vsqrt (a : V3 F) : V3 F := vmap sqrt a.
   Definition vadds (a : V3 F) (s : F) : V3 F := V (vx a + s) (vy a + s) (vz a + s).
   Definition vsubs (a : V3 F) (s : F) : V3 F := V (vx a - s) (vy a - s) (vz a - s).
-  Definition vone_minus (a : V3 F) : V3 F := V (one - vx a) (one - vy a) (one - vz a).
-  (** np.maximum(0.0, a) *)
-  Definition vclamp0 (a : V3 F) : V3 F := vmap (fun x => fmax zero x) a.
 
   (** containment.axis_aligned_bounding_box:  np.min(P, axis=0), np.max(P, axis=0);
       [None] for an empty array (numpy raises ValueError) *)
